@@ -93,6 +93,21 @@ Inductive case :=
      eff_* = what the constructed FailureCache ended up with *)
 | CasePipe (raw_size raw_init raw_max : Z) (disabled exact : bool) (eff_init eff_max : Z)
            (tab : list (qkey * N)) (steps : list pstep) (final : list (N * entry))
+  (* n goroutines record one key concurrently after its backoff ended (clock readings [nows]):
+     the entry before, the entry in the slot afterwards, how many distinct hits were returned *)
+| CaseRace (init max : Z) (before : entry) (nows : list Z) (after : entry) (distinct : Z)
+  (* n concurrent requests below one expired zone; the first probe fails request-locally
+     (first_local) or re-records the zone; observed: most probes in flight at once, probes sent,
+     requests served from the failure cache, requests shed by the probe limit *)
+| CaseElect (n : Z) (first_local : bool) (max_in_flight calls served shed : Z)
+  (* dns64 in front of the cache: per client AAAA query (source of the SERVFAIL: 0 failure cache,
+     1 downstream shared, 2 downstream request-local; client EDNS; A lookups; downstream calls; rcode; EDE) *)
+| CaseWrap (steps : list (N * bool * Z * Z * N * option N))
+  (* wire fast path gate: failure of kind question/zone recorded while the denial index was
+     idx_rung (captured at the denial rung), queried wire-born while it is idx_query;
+     answered by the byte path?, rcode, EDE *)
+| CaseWireGate (cd kind_q denial_impossible : bool) (n : name) (idx_rung idx_query : list (name * N))
+               (by_wire : bool) (rcode : N) (ede : option N)
   (* lab: a zone whose authority addresses behave as listed (0,1 healthy; 2,3,4 failure
      rcode; 5 silent); zone failures published / cleared by Resolver.Resolve, its rcode (999 = error) *)
 | CaseLab (servers : list N) (records clears : Z) (rcode : N)
@@ -267,6 +282,28 @@ Definition check_case (x : case) : bool :=
       (c_init c =? eff_init) && (c_max c =? eff_max) &&
       let '(s, ok) := run_psteps (tab_H tab) c (mk_store [] disabled) [] 0 steps in
       ok && (if exact then same_map (s_map s) final else true)
+  | CaseRace init max before nows after distinct =>
+      let c := mk_cfg init max in
+      cfg_validb c && (distinct =? 1) &&
+      existsb (fun w => entry_eqb (renew c before (e_prov after) w) after) nows
+  | CaseElect n first_local mx calls served shed =>
+      (* the election model allows at most one probe in flight under every schedule
+         (Properties.single_probe); every request ends as a probe, served or shed *)
+      (mx =? 1) && (1 <=? calls) && (calls + served + shed =? n)
+  | CaseWrap steps =>
+      forallb (fun x : N * bool * Z * Z * N * option N => let '(k, edns, al, dc, rc, ede) := x in
+        let src := if (k =? 0)%N then SrcFailureCache else if (k =? 1)%N then SrcSharedFailure else SrcRequestLocal in
+        let '(wa, wd) := wrapper_traffic src in
+        (al =? wa) && (dc =? wd) &&
+        match src with
+        | SrcFailureCache => (rc =? rcode_servfail)%N && opt_N_eqb ede (if edns then Some ede_cached_error else None)
+        | SrcSharedFailure => true                             (* what dns64 makes of the A answer is C20's subject *)
+        | SrcRequestLocal => (rc =? rcode_servfail)%N && negb (opt_N_eqb ede (Some ede_cached_error))
+        end) steps
+  | CaseWireGate cd kq di n idx_rung idx_query by_wire rcode ede =>
+      let w := if cd || negb kq then [] else miss_witness idx_rung n in
+      Bool.eqb by_wire (wire_gate cd kq di (witness_holds idx_query n w)) &&
+      (rcode =? rcode_servfail)%N && opt_N_eqb ede (Some ede_cached_error)
   | CaseLab servers records clears rcode =>
       let bs := map (fun b => if (b <=? 1)%N then AHealthy else if (b =? 5)%N then ASilent else AFailureRcode) servers in
       if zone_failure_published bs then (1 <=? records) && negb (rcode =? 0)%N
@@ -547,6 +584,18 @@ Definition spec_case (x : case) : bool :=
       (spec_floor <=? eff_init) && (eff_init <=? eff_max) && (eff_max <=? spec_ceiling) &&
       spec_psteps eff_init eff_max disabled [] [] 0 steps &&
       (if disabled then match final with [] => true | _ => false end else true)
+  | CaseRace init max before nows after distinct =>
+      (* concurrent recorders advance the streak exactly once *)
+      (e_streak after =? (if (e_streak before =? 4294967295)%N then e_streak before else e_streak before + 1))%N ||
+      ((e_streak after =? 1)%N && existsb (fun w => w - e_retry before >=? max) nows)
+  | CaseElect n first_local mx calls served shed => (mx <=? 1)
+  | CaseWrap steps =>
+      (* a cached failure is answered without upstream traffic of any kind *)
+      forallb (fun x : N * bool * Z * Z * N * option N => let '(k, edns, al, dc, rc, ede) := x in
+        if (k =? 0)%N || opt_N_eqb ede (Some ede_cached_error) then (al =? 0) && (dc =? 0) else true) steps
+  | CaseWireGate cd kq di n idx_rung idx_query by_wire rcode ede =>
+      (* whichever path composes it, the client sees the cached failure *)
+      (rcode =? rcode_servfail)%N && opt_N_eqb ede (Some ede_cached_error)
   | CaseLab servers records clears rcode =>
       (* a zone failure only for a zone every one of whose servers failed to give a usable response *)
       if (0 <? records) then forallb (fun b => (2 <=? b)%N) servers else true
